@@ -230,6 +230,9 @@ func ruleS10(r *Run) {
 			} else {
 				ns.err = 1
 			}
+			if st.err != 0 && st.err != ns.err {
+				return ps, false // the error is known on this path: the other branch is not taken
+			}
 			return ns, true
 		}
 		return ps, true
